@@ -261,14 +261,41 @@ func checkC11(c *Ctx) {
 			reach := c.P.Reach([]*ssa.Function{leave}, func(from *ssa.Function, cl *core.Call, to *ssa.Function) bool {
 				return hasAncestor(to, leave) || (to.Package() == leave.Package() && (cl == nil || !cl.Invoke))
 			})
+			uncond := false
 			for f := range reach {
 				for _, cl := range core.CallsTo(f, t.obj) {
 					if reachesParam(cl.Arg(0), leave, paramIndexOfType(leave, "uint64")) {
 						found = true
+						// on every call of the handler: the call (or the go / call statement of the handler that leads to
+						// it) dominates every return of the handler
+						ats := c.liftTo(leave, cl.Instr)
+						// inside a function literal of the handler (the delayed clean-up runs in a goroutine): the place
+						// where the handler creates that literal
+						for g := cl.Instr.Parent(); g != nil && g != leave; g = g.Parent() {
+							if g.Parent() == leave {
+								for _, mc := range c.P.ClosureSites(g) {
+									ats = append(ats, mc)
+								}
+							}
+						}
+						for _, at := range ats {
+							all := true
+							for _, rb := range leave.Blocks {
+								if _, isRet := rb.Instrs[len(rb.Instrs)-1].(*ssa.Return); isRet && !at.Block().Dominates(rb) {
+									all = false
+								}
+							}
+							if all {
+								uncond = true
+							}
+						}
 					}
 				}
 			}
 			ru6.Check(found, t.name+"(id) in "+c.fname(leave), c.where(leave, leave), "called with the failed peer's id", "entries hosted by a failed peer are not all removed by peer id: subscriptions or sessions whose record is missing or displaced stay listed forever")
+			if found {
+				ru6.Check(uncond, t.name+"(id) on every call of "+c.fname(leave), c.where(leave, leave), "dominates every return of the handler", "the clean-up is skipped on some path of the handler (for instance when no session record of the lost peer is known here): what the peer hosted stays listed")
+			}
 		}
 	}
 
